@@ -332,6 +332,8 @@ def param_families(tier, rng):
     # --- same-format blocks: every format (signed and unsigned labelled) of total width <= WMAX, all encodings
     for w in range(0, WMAX + 1):
         for fm in formats_of_width(w):
+            if q and fm[0] == 0 and w >= 5:     # quick: unsigned-labelled formats (same code path) only up to 4 bits
+                continue
             yield 'FixedPointAdd', (w, w, w) + fm + fm + fm, 'exh'
             yield 'FixedPointSub', (w, w, w) + fm + fm + fm, 'exh'
             yield 'FixedPointSign', (w, 1) + fm, 'exh'
